@@ -30,7 +30,10 @@ Tolerances (all evaluated for the point at hand):
            depends on them at exactly that level).
     far field: |T[-1]-T+|/T+, |v[-1]+v+|, |T[0]-T-|/T-, |v[0]+v-| <=
            10 max_i sech^2(z_end/L_i + delta_i) + K_FAR (rtol + xtol/T) + 1e-4
-           + 20 (|r1| + |r2|)   [hybrid, behind the wall: the sonic point is a double
+           + 20 (|r1| + |r2| + eps_c), the perturbation terms multiplied by the conditioning
+           max(1, 1/|1 - v^2/c_s^2|) of the flow equations (eps_c = relative deviation of
+           c1, c2 from the closed-form fluxes at (T+, v+): the tables behind c1, c2 are only
+           that accurate, 1e-4..1e-3 for s ~ 1e-2)   [hybrid, behind the wall: the sonic point is a double
            root, every perturbation p enters as a square root -> + 3 sqrt(p) + 4e-5/T-
            (minimize_scalar's absolute xatol)].  The two end points are judged whatever
            happened in the middle of the wall; "no solution" at an end point is a violation
@@ -297,6 +300,7 @@ def _drive(case, rng, b, ws, mon, key0):
         # is the wall-frame mean of the two asymptotic fluid velocities (negative), c1/c2
         # the energy/momentum flux of the matching in front of the wall, c1 negative.
         vmid_ref = -0.5 * (vp + vm)
+        eps_c = 0.0
         mon["hydro_boundaries_contract"] = mon.get("hydro_boundaries_contract", 0) + 1
         if abs(vmid - vmid_ref) > 8 * EPS:
             viol.append({"mech": "hydro-boundaries-velocityMid-convention",
@@ -307,6 +311,8 @@ def _drive(case, rng, b, ws, mon, key0):
             g2p = 1 / (1 - vp * vp)
             c1_ref, c2_ref = -eosp[1] * g2p * vp, eosp[0] + eosp[1] * g2p * vp * vp
             # tables vs closed form: observed <= 2e-4; a sign or a power of v is O(1)
+            eps_c = abs(c1 - c1_ref) / abs(c1_ref) + \
+                abs(c2 - c2_ref) / (abs(eosp[0]) + eosp[1] * g2p)
             if abs(c1 - c1_ref) > 5e-3 * abs(c1_ref) or \
                     abs(c2 - c2_ref) > 5e-3 * (abs(eosp[0]) + eosp[1] * g2p):
                 viol.append({"mech": "hydro-boundaries-c1-c2-not-fluxes-of-matching",
@@ -329,6 +335,12 @@ def _drive(case, rng, b, ws, mon, key0):
             continue
         mres = R.matching_residuals(pot, vp, vm, Tp, Tm)
         mr = abs(mres[0]) + abs(mres[1])
+        try:
+            conds = (1 / max(abs(1 - vm * vm / float(thermo.csqLowT(Tm))), 0.02),
+                     1 / max(abs(1 - vp * vp / float(thermo.csqHighT(Tp))), 0.02))
+        except Exception:
+            conds = (50.0, 50.0)
+        mres = (mres[0], mres[1], eps_c, max(1.0, conds[0]), max(1.0, conds[1]))
         if not mr <= 2e-3:
             classes.append(f"inadmissible:P_matching:{branch}")
             rows.append({"vw": vw, "branch": branch, "matching_residuals": mres})
@@ -551,8 +563,13 @@ def _judge_profile(case, pot, eom, ctx, branch, c1, c2, Tp, Tm, vp, vm, vmid, fi
             continue
         if not ok:
             continue
-        pert = 10 * tails[side] + K_FAR * (rtol_root + xtol_root / Tref) + 20 * mr
-        tol = pert + 1e-4
+        # consistency of the boundary constants with the closed-form potential (eps_c: c1, c2
+        # against the closed-form fluxes at (T+, v+); mr: the matching on the closed-form
+        # EOS) and the field tail perturb the two equations; the solution moves by that
+        # times the conditioning 1/|1 - v^2/c_s^2| of the flow equations
+        cond = mres[3] if side == "behind" else mres[4]
+        pert = 10 * tails[side] + K_FAR * (rtol_root + xtol_root / Tref) + 20 * (mr + mres[2])
+        tol = pert * cond + 1e-4
         if branch == "hybrid" and side == "behind":
             # behind a hybrid the flow is sonic: (T-, v-) is the double root of the T33
             # equation, every perturbation p of the equation (field tail, matching
